@@ -159,9 +159,10 @@ func (f *fallback) doFallback(ctx context.Context, qCtx *query_context.Context) 
 
 		r := qCtx.R()
 		// always standby is enabled. Wait until secondary resp is needed.
+		// The end of ctx is not such a moment: it has the caller's deadline.
+		// The timer bounds the wait.
 		if f.alwaysStandby && r != nil {
 			select {
-			case <-ctx.Done():
 			case <-primDone:
 			case <-primFailed: // only send secondary result when primary is failed.
 			case <-timer.C: // or timed out.
